@@ -12,9 +12,23 @@ ASSUMPTIONS = ['contract = the guards present on the pinned tree (plus this task
 UNITS = ['str.c', 'ustr.c', 'mbuff.c', 'objpair.c', 'tok.c', 'url.c', 'regexp.c', 'socket.c', 'obj.c', 'array.c', 'linked_list.c', 'dlinked_list.c', 'strings.c', 'debug.c']
 
 
+
+def _sweep_stale(bdir, prefix):
+    """generated units of runs that are gone (a --list call, a killed run) are removed; live runs keep theirs"""
+    import re as _re
+    for fn in os.listdir(bdir):
+        m = _re.match(_re.escape(prefix) + r'(\d+)\.c$', fn)
+        if m and not os.path.exists('/proc/' + m.group(1)):
+            try:
+                os.unlink(os.path.join(bdir, fn))
+            except OSError:
+                pass
+
+
 def families(tier):
     bdir = os.path.join(VERIF, 'build')
     os.makedirs(bdir, exist_ok=True)
+    _sweep_stale(bdir, 'c16_generated_')
     path = os.path.join(bdir, 'c16_generated_%d.c' % os.getpid())
     entries = gen_null.emit(path)
     f = Family('null', path, units=UNITS, stubs=['msgs_stub.c', 'libc_models.c', 'fmt_stub.c', 'pcre_stub.c', 'env_net.c', 'env_io.c', 'env_sock.c'],
